@@ -32,7 +32,13 @@ fn describe(net: &Net, msg: usize, off: usize, order: &str) -> Value {
 }
 
 /// Scans everything on the wire for `delta` (the global key of `target`).
-pub fn scan(net: &Net, delta: u128, triples: bool) -> LeakReport {
+/// Bytes of a message as seen by an eavesdropper / held by the peers: what an honest sender
+/// really sent (even if the adversary rewrote its copy on the way in), what a corrupted sender put on the wire.
+fn pool_bytes<'a>(m: &'a crate::sim::MsgRec, corrupt: Option<usize>) -> Option<&'a Vec<u8>> {
+    if Some(m.from) == corrupt { m.wire.as_ref() } else if m.sent.is_empty() { m.wire.as_ref() } else { Some(&m.sent) }
+}
+
+pub fn scan(net: &Net, delta: u128, triples: bool, corrupt: Option<usize>) -> LeakReport {
     let mut rep = LeakReport::default();
     if delta == 0 {
         return rep;
@@ -40,7 +46,7 @@ pub fn scan(net: &Net, delta: u128, triples: bool) -> LeakReport {
     // every 16-byte window at every byte offset, both byte orders
     let mut set: HashMap<u128, (u32, u32, u8)> = HashMap::new();
     for m in &net.msgs {
-        let Some(w) = &m.wire else { continue };
+        let Some(w) = pool_bytes(m, corrupt) else { continue };
         if w.len() < 16 {
             continue;
         }
@@ -78,7 +84,7 @@ pub fn scan(net: &Net, delta: u128, triples: bool) -> LeakReport {
         // decoded 128-bit fields (schema leaves + the MAC slots inside 'fashare ver' byte strings)
         let mut fields: Vec<(u128, u32)> = vec![];
         for m in &net.msgs {
-            let Some(w) = &m.wire else { continue };
+            let Some(w) = pool_bytes(m, corrupt) else { continue };
             let label = net.label(m.label);
             let Some(sch) = codec::schema_for(label) else { continue };
             let Some(val) = codec::decode_all(&sch, w) else { continue };
